@@ -5,6 +5,7 @@ pub mod c04;
 pub mod c05;
 pub mod c06;
 pub mod c07;
+pub mod c12;
 pub mod c13;
 pub mod replay;
 
@@ -19,6 +20,7 @@ pub fn dispatch(prop: &str, tier: Tier) -> i32 {
         "C05" => c05::run(tier),
         "C06" => c06::run(tier),
         "C07" => c07::run(tier),
+        "C12" => c12::run(tier),
         "C13" => c13::run(tier),
         _ => {
             println!("MACHINERY-ERROR: unknown property {}", prop);
